@@ -341,6 +341,38 @@ func randHistory(r *vf.Rng, maxBlocks int) *History {
 	case x < 26:
 		h.SideE = "raw"
 	}
+	// a plain key account delegates; after the period end at which that took effect it
+	// delegates to ANOTHER validator and reduces the first delegation; the restarted
+	// importer is reopened from disk right after period ends and at random boundaries
+	if fq := int(h.Params.Freq); nb > fq+1 && len(h.Vals) >= 2 {
+		g1, g2 := &h.Vals[0], &h.Vals[1]
+		g1.Accept, g2.Accept = 1, 1
+		d := r.Intn(nAcct - 1)
+		mk := func(kind string, g *GenesisVal, value string) TxIn {
+			return TxIn{Kind: kind, From: d, Val: g.Key, Value: value, Gas: 300000, Price: uint64(16*(1+r.Intn(4)) + d)}
+		}
+		s1 := r.Intn(fq - 1)            // block index in the first period (numbers 1..fq-1)
+		pe := (s1/fq+1)*fq - 2           // index of the period-end block (number+1 divisible by fq)
+		if pe < s1 {
+			pe = s1
+		}
+		if pe+1 < nb {
+			h.Blocks[s1].Txs = append(h.Blocks[s1].Txs, mk("dadd", g1, "3"+YOU))
+			s2 := pe + 1 + r.Intn(nb-pe-1)
+			h.Blocks[s2].Txs = append(h.Blocks[s2].Txs, mk("dadd", g2, "2"+YOU))
+			if s3 := s2 + r.Intn(nb-s2); r.Chance(60) {
+				h.Blocks[s3].Txs = append(h.Blocks[s3].Txs, mk("dsub", g1, "1"+YOU))
+			}
+			h.Restarts = append(h.Restarts, pe+1)
+		}
+	}
+	for i := 1; i < nb; i++ {
+		if (uint64(i+1))%h.Params.Freq == 0 && r.Chance(50) { // block i (number i) ... reopen after a period end
+			h.Restarts = append(h.Restarts, i)
+		} else if r.Chance(8) {
+			h.Restarts = append(h.Restarts, i)
+		}
+	}
 	// two branches from a common ancestor: a second builder forks off a few blocks
 	// before the end and builds 2-5 blocks of its own with staking transactions
 	// and evidences
@@ -431,6 +463,7 @@ func runHistory(h *History, reps int) (obs []*BlockObs, crashed string) {
 	obs = w.run(reps)
 	w.headMoved(obs)
 	w.carried(obs)
+	w.restarted(obs)
 	if h.Fork != nil {
 		w.forks(obs)
 	} else {
@@ -449,12 +482,13 @@ func digest(obs []*BlockObs) string {
 		Side string
 		SideE string
 		Fork  *ForkObs
+		Rst   string
 	}
 	var ps []proj
 	for _, o := range obs {
 		c := *o
 		c.ReexecDiff = nil
-		ps = append(ps, proj{&c, o.Evs, o.HeadMovedDiff, o.CarriedDiff, o.Incoherent, o.SideErr, o.SideEErr, o.Fork})
+		ps = append(ps, proj{&c, o.Evs, o.HeadMovedDiff, o.CarriedDiff, o.Incoherent, o.SideErr, o.SideEErr, o.Fork, o.RestartErr})
 	}
 	b, _ := json.Marshal(ps)
 	s := sha256.Sum256(b)
@@ -536,6 +570,18 @@ func judge(h *History, obs []*BlockObs, crashed string, v *verdicts) {
 			add(&v.hits, "a block whose header commitment was altered is still accepted by Process + ValidateState", o, "altered field: "+t)
 		}
 		v.counts["tamper_rejected"] += o.TamperRejected
+		if o.RestartErr != "" {
+			v.counts["restarted_importer_failed"]++
+			what := "an importer restarted from disk does not accept a block the builder built"
+			if strings.HasPrefix(o.RestartErr, "panic") {
+				what = "importer crashed on a block the builder accepted (importer restarted from disk)"
+			}
+			add(&v.hits, what, o, o.RestartErr)
+		}
+		if o.Number == 1 && o.Restarted > 0 {
+			v.counts["restarted_importer_histories"]++
+			v.counts["importer_restarts"] += o.Restarted
+		}
 		if len(o.CarriedDiff) > 0 {
 			v.counts["carried_statedb_differs"]++
 			add(&v.hits, "executing consecutive blocks on ONE carried StateDB (as side-chain verification does) differs from executing each on a fresh StateDB", o, strings.Join(o.CarriedDiff, "; "))
